@@ -1022,6 +1022,33 @@ impl CaseSpace for FileObjects {
                 return res;
             }
         }
+        // the same object inside a fragment: accepted as one free-format header; a declared length
+        // that covers one octet more than the object's own fields account for is rejected
+        // (variations whose last field takes "the rest" have no such thing as a trailing octet)
+        let frame = |data: &[u8]| -> Vec<u8> {
+            let mut o = vec![70u8, p.var, 0x5B, 1, data.len() as u8, (data.len() >> 8) as u8];
+            o.extend_from_slice(data);
+            app::response(0xC0, fc::RESPONSE, 0, 0, &o)
+        };
+        let exact = dnp3::verif::seams::app_parse(&frame(&reference), false);
+        let exact_ok = matches!(&exact, Ok(a) if matches!(&a.objects, Ok(h) if h.len() == 1 && h[0].group == 70 && h[0].var == p.var));
+        if !exact_ok {
+            res.violation = Some(Violation::new("C09.F3", format!("file-object-rejected-inside-a-fragment:{key}"), format!("{}: {:?}", out.original, exact.map(|a| a.objects))));
+            return res;
+        }
+        if matches!(p.var, 2 | 3 | 7) {
+            let mut longer = reference.clone();
+            longer.push(0xFF);
+            let r = dnp3::verif::seams::app_parse(&frame(&longer), false);
+            if matches!(&r, Ok(a) if a.objects.is_ok()) {
+                res.violation = Some(Violation::new(
+                    "C09.F4",
+                    format!("free-format-object-accepted-although-its-declared-length-exceeds-its-fields:{key}"),
+                    format!("{} with one extra octet inside the declared length of {}", out.original, longer.len()),
+                ));
+                return res;
+            }
+        }
         res.nontrivial = true;
         res.model_states.push(p.var as u64);
         res
@@ -1158,6 +1185,10 @@ pub fn replay(name: &str, path: &[usize]) -> Option<RunResult> {
     if f.name() == name {
         return Some(f.run(path[0], true));
     }
+    let f = super::c10::Cto { id: "C09" };
+    if f.name() == name {
+        return Some(f.run(path[0], true));
+    }
     None
 }
 
@@ -1168,9 +1199,10 @@ pub fn check(tier: &str) -> i32 {
     c.cases(&build_mutants());
     c.cases(&build_file_objects());
     c.cases(&build_attr_values());
+    c.cases(&super::c10::Cto { id: "C09" });
     c.finish(
         "exploration",
-        "(a) every request kind the master API builds (8 READ forms, 24 command sets over 5 control types x 8/16-bit indices x direct/select incl. the OPERATE step, both time synchronisations incl. their second step, restarts, dead-band writes, freeze requests with time-and-interval, file requests) and 48 outstation corpora (every static and event variation of all eight types at sparse indices up to 65535, control echoes, delay, restart, error responses, at transmit sizes 249 and 2048) are parsed by the library parser and by the engine's walker: function, flags, IIN, headers, counts and indices must agree and the lazy second pass must equal the first; (b) for every (group, variation) [known groups x 15 variations quick; all 65 536 thorough] x qualifier [12 quick; all 256 thorough] x function {READ, WRITE, RESPONSE} x 7 count/range shapes x {exact, -1 byte, +1 byte, header only}: if the library accepts, the reference size table must agree that the bytes are exactly what the header implies and iteration must yield the declared number of objects with the declared indices; (c) every truncation, three one-byte extensions and three mutations of every byte of the corpus fragments; (d) group 70 free-format objects v2..v8: all 512 permission words x 2 settings of the other fields (v3, v7), all 256 status codes / boundary mode and type codes x boundary numbers, strings and data lengths: the library's writer must produce the encoding of IEEE 1815 Annex A and its reader must turn that encoding back into the same object; (e) device-attribute values of every type at boundary values (signed and unsigned integers around every length boundary, floats, strings of length 0..255, time): the writer's encoding carries the value per Annex A and the parser returns it; non-trivial = the variation is known to the reference; distinct = distinct input",
+        "(a) every request kind the master API builds (8 READ forms, 24 command sets over 5 control types x 8/16-bit indices x direct/select incl. the OPERATE step, both time synchronisations incl. their second step, restarts, dead-band writes, freeze requests with time-and-interval, file requests) and 48 outstation corpora (every static and event variation of all eight types at sparse indices up to 65535, control echoes, delay, restart, error responses, at transmit sizes 249 and 2048) are parsed by the library parser and by the engine's walker: function, flags, IIN, headers, counts and indices must agree and the lazy second pass must equal the first; (b) for every (group, variation) [known groups x 15 variations quick; all 65 536 thorough] x qualifier [12 quick; all 256 thorough] x function {READ, WRITE, RESPONSE} x 7 count/range shapes x {exact, -1 byte, +1 byte, header only}: if the library accepts, the reference size table must agree that the bytes are exactly what the header implies and iteration must yield the declared number of objects with the declared indices; (c) every truncation, three one-byte extensions and three mutations of every byte of the corpus fragments; (d) group 70 free-format objects v2..v8: all 512 permission words x 2 settings of the other fields (v3, v7), all 256 status codes / boundary mode and type codes x boundary numbers, strings and data lengths: the library's writer must produce the encoding of IEEE 1815 Annex A and its reader must turn that encoding back into the same object; (e) device-attribute values of every type at boundary values (signed and unsigned integers around every length boundary, floats, strings of length 0..255, time): the writer's encoding carries the value per Annex A and the parser returns it; (f) relative-time events (g2v3 / g4v3): all orders of 3 events with time differences {0, 1, 65535, 65536, -1, -70000} and mixed synchronisation under common-time-of-occurrence headers decode to the recorded times (the product C10 also runs); non-trivial = the variation is known to the reference; distinct = distinct input",
         &["object values inside accepted headers are compared by C10 (end to end), here counts and indices are compared through the library's own object display"],
         serde_json::json!({}),
     )
